@@ -80,6 +80,55 @@ class Path:
         return " -> ".join(conds + [end])
 
 
+def nonempty_term(t: Term, nonempty: Set[Term]) -> Optional[bool]:
+    """True if the sequence term is provably non-empty given the non-empty facts, False if provably empty,
+    None if unknown."""
+    if t in nonempty:
+        return True
+    tag = t[0]
+    if tag in ("list", "tuple", "set"):
+        if any(x[0] == "star" for x in t[1]):
+            return True if any(x[0] != "star" for x in t[1]) else None
+        return len(t[1]) > 0
+    if tag == "concat":
+        rs = [nonempty_term(x, nonempty) for x in t[1]]
+        if any(r is True for r in rs):
+            return True
+        if all(r is False for r in rs):
+            return False
+        return None
+    if tag == "comp":
+        gens = t[3]
+        if any(ifs for _, ifs in gens):
+            return None
+        rs = [nonempty_term(it, nonempty) for it, _ in gens]
+        if all(r is True for r in rs):
+            return True
+        if any(r is False for r in rs):
+            return False
+        return None
+    if tag == "call":
+        name = t[1]
+        if name in ("list", "sorted", "reversed", "tuple", "iter", "enumerate", "itertools.groupby", "set") and t[2]:
+            return nonempty_term(t[2][0], nonempty)
+        if name == "map" and len(t[2]) == 2:
+            return nonempty_term(t[2][1], nonempty)
+        if name == "itertools.chain" and t[2]:
+            rs = [nonempty_term(x, nonempty) for x in t[2]]
+            return True if any(r is True for r in rs) else None
+    if tag == "orelse":
+        # x or [y]  : non-empty when the last alternative is
+        return True if nonempty_term(t[1][-1], nonempty) is True else None
+    if tag == "select":
+        a, b = nonempty_term(t[2], nonempty), nonempty_term(t[3], nonempty)
+        if a is True and b is True:
+            return True
+        if a is False and b is False:
+            return False
+    return None
+
+
+
 class Explorer:
     def __init__(self, ctx: Ctx, fn: FunctionInfo, env: Optional[Dict[str, Term]] = None,
                  heap: Optional[Dict[Term, Term]] = None, facts: Optional[Dict[Term, bool]] = None,
@@ -139,6 +188,8 @@ class Explorer:
             r = self.truth_of(("isnone", t[1]), st)
             return None if r is None else not r
         if t in st.nonempty:
+            return True
+        if st.nonempty and tag in ("call", "comp", "concat", "slice") and nonempty_term(t, st.nonempty) is True:
             return True
         if tag == "not" and t[1] in st.nonempty:
             return False
